@@ -63,6 +63,13 @@ MaskNone == MaskConst(FALSE)
 (* base mask with the flags of `flip` (a set of <<level, flag>>) inverted *)
 MaskFlip(b, flip) == [l \in Levels |-> [f \in Flags[l] |-> IF <<l, f>> \in flip THEN ~b ELSE b]]
 
+(* The interests are asked of every member visitor: a class visitor may hand out differently configured ones.  A mask *)
+(* may therefore carry a second mask `alt`, reported by the visitors of the members (fields, methods with their code,   *)
+(* record components) whose ordinal is even; the class level knows one mask only.                                        *)
+HasAlt(M) == "alt" \in DOMAIN M
+WithAlt(M, A) == [x \in Levels \cup {"alt"} |-> IF x = "alt" THEN A ELSE M[x]]
+MemberMask(M, mi) == IF HasAlt(M) /\ mi % 2 = 0 THEN [l \in Levels |-> IF l = "class" THEN M.class ELSE M.alt[l]] ELSE M
+
 NoDeclines == [classes |-> {}, fields |-> {}, methods |-> {}, codes |-> {}, rcs |-> {}]
 
 (* a SimpleClassVisitor is a ClassVisitor that is interested in fields and methods only *)
@@ -137,12 +144,12 @@ Keep(e, M, D) ==
               [] e.lvl = "class" /\ e.mk = "r" -> M.class.record  /\ (e.ev = "visit_record_component" \/ e.mi \notin D.rcs)
               [] e.lvl = "class" /\ e.mk = "f" -> M.class.fields  /\ (e.ev = "visit_field" \/ e.mi \notin D.fields)
               [] e.lvl = "class" /\ e.mk = "m" -> M.class.methods /\ (e.ev = "visit_method" \/ e.mi \notin D.methods)
-              [] e.lvl = "rc"     -> M.class.record  /\ e.mi \notin D.rcs     /\ Interested(M, e)
-              [] e.lvl = "field"  -> M.class.fields  /\ e.mi \notin D.fields  /\ Interested(M, e)
-              [] e.lvl = "method" -> M.class.methods /\ e.mi \notin D.methods /\ Interested(M, e)
+              [] e.lvl = "rc"     -> M.class.record  /\ e.mi \notin D.rcs     /\ Interested(MemberMask(M, e.mi), e)
+              [] e.lvl = "field"  -> M.class.fields  /\ e.mi \notin D.fields  /\ Interested(MemberMask(M, e.mi), e)
+              [] e.lvl = "method" -> M.class.methods /\ e.mi \notin D.methods /\ Interested(MemberMask(M, e.mi), e)
                                      /\ (e.ev = "finish_code" => e.mi \notin D.codes)
-              [] e.lvl = "code"   -> M.class.methods /\ e.mi \notin D.methods /\ M.method.code /\ e.mi \notin D.codes
-                                     /\ Interested(M, e)
+              [] e.lvl = "code"   -> M.class.methods /\ e.mi \notin D.methods /\ MemberMask(M, e.mi).method.code /\ e.mi \notin D.codes
+                                     /\ Interested(MemberMask(M, e.mi), e)
               [] OTHER -> FALSE
 
 (* the stack map frame travels on the instruction event and is subject to its own flag.  The rows of          *)
@@ -160,7 +167,7 @@ Adjust(e, M) ==
     ELSE e
 
 Filter(es, M, D) ==
-    LET kept == SelectSeq(es, LAMBDA e : Keep(e, M, D)) IN [i \in DOMAIN kept |-> Adjust(kept[i], M)]
+    LET kept == SelectSeq(es, LAMBDA e : Keep(e, M, D)) IN [i \in DOMAIN kept |-> Adjust(kept[i], MemberMask(M, kept[i].mi))]
 
 (* A label is a name for a code position.  Its definition (visit_last_label, the label argument of        *)
 (* visit_instruction) is delivered when something the reader parsed refers to the position, so it is not   *)
@@ -345,7 +352,7 @@ ReadMember(mk, m, i, M, D, c, cur) ==
         wanted == IF mk = "f" THEN M.class.fields ELSE M.class.methods
     IN IF ~wanted THEN [cur |-> SkipAttributes(m.attrs, cur + m.fixed), evs |-> <<>>]
        ELSE IF declined THEN [cur |-> SkipAttributes(m.attrs, cur + m.fixed), evs |-> <<open>>]
-       ELSE LET r == ReadMemberAttrs(lvl, m.attrs, M, D, c, mk, i, [cur |-> cur + m.fixed + 2, evs |-> <<>>])
+       ELSE LET r == ReadMemberAttrs(lvl, m.attrs, MemberMask(M, i), D, c, mk, i, [cur |-> cur + m.fixed + 2, evs |-> <<>>])      \* this member visitor's interests
             IN [cur |-> r.cur, evs |-> <<open>> \o r.evs \o DepSyn(lvl, c, mk, i) \o <<close>>]
 
 (* read_record_component *)
@@ -353,7 +360,7 @@ ReadComponent(comp, i, M, D, c, cur) ==
     LET open == Ev("class", "visit_record_component", c, "r", i, "", "")
         close == Ev("class", "finish_record_component", c, "r", i, "", "")
     IN IF i \in D.rcs THEN [cur |-> SkipAttributes(comp.attrs, cur + 4), evs |-> <<open>>]
-       ELSE LET r == ReadMemberAttrs("rc", comp.attrs, M, D, c, "r", i, [cur |-> cur + 4 + 2, evs |-> <<>>])
+       ELSE LET r == ReadMemberAttrs("rc", comp.attrs, MemberMask(M, i), D, c, "r", i, [cur |-> cur + 4 + 2, evs |-> <<>>])
             IN [cur |-> r.cur, evs |-> <<open>> \o r.evs \o <<close>>]
 
 RECURSIVE ReadComponents(_, _, _, _, _, _)
@@ -539,11 +546,11 @@ AcceptMember(mk, m, i, M, D, c) ==
         close == Ev("class", IF mk = "f" THEN "finish_field" ELSE "finish_method", c, mk, i, "", "")
         declined == IF mk = "f" THEN i \in D.fields ELSE i \in D.methods
     IN IF declined THEN <<open>>
-       ELSE <<open>> \o DepSyn(lvl, c, mk, i) \o AcceptAttrs(lvl, m.attrs, M, D, c, mk, i) \o <<close>>
+       ELSE <<open>> \o DepSyn(lvl, c, mk, i) \o AcceptAttrs(lvl, m.attrs, MemberMask(M, i), D, c, mk, i) \o <<close>>
 
 AcceptComponent(comp, i, M, D, c) ==
     IF i \in D.rcs THEN <<Ev("class", "visit_record_component", c, "r", i, "", "")>>
-    ELSE <<Ev("class", "visit_record_component", c, "r", i, "", "")>> \o AcceptAttrs("rc", comp.attrs, M, D, c, "r", i)
+    ELSE <<Ev("class", "visit_record_component", c, "r", i, "", "")>> \o AcceptAttrs("rc", comp.attrs, MemberMask(M, i), D, c, "r", i)
          \o <<Ev("class", "finish_record_component", c, "r", i, "", "")>>
 
 AcceptEvents(c, M, D, k) ==
